@@ -128,6 +128,8 @@ def run():
     rows, full = [], {}
     for rid, (emb, idx) in meta.items():
         o = out[rid]
+        if str(o["end"]).startswith(("discarded:", "fuel:")):
+            continue                      # the worker gave up on the session (deadline): nothing observed
         if pvlib.is_host_crash(o["end"]) or not o.get("extra"):
             ck.reject("C19:host-crash", f"session {[POOL[p] for p in idx]} under {emb}: {o['end']}", {"embedding": emb, "programs": [POOL[p] for p in idx]})
             continue
